@@ -174,6 +174,13 @@ def argv_env(case):
                     ("collapse_last", "--collapse-last"), ("desc", "--desc"), ("silent", "--silent")]:
         if case.get(k): l += [flag]
     if case.get("template") is not None: l += ["--internal-template-name", s_(case["template"])]
+    # boolean flags given with the explicit value false (urfave/cli's --flag=false): the same as not giving them - the model is told nothing
+    FALSEFLAG = dict(csv="--csv", no_totals="--no-totals", totals_only="--totals-only", shorten="--shorten", old="--use-old-reg-reporter", collapse="--collapse",
+                     collapse_last="--collapse-last", desc="--desc", silent="--silent", l_no_color="--no-color", group_food="--group-food")
+    for k in case.get("false_flags") or []:
+        if k == "g_no_color": g += ["--no-color=false"]
+        elif k == "no_database": g += ["--no-database=false"]
+        else: l += [FALSEFLAG[k] + "=false"]
     argv = g + CMD_ARGV[case["cmd"]] + l
     if case.get("arg") is not None: argv += ["--", s_(case["arg"])] if s_(case["arg"]).startswith("-") else [s_(case["arg"])]
     env = {}
@@ -349,9 +356,18 @@ def parse_model_outcome(raw):
     st, _, out = s.partition(" ")
     return st, bytes.fromhex(out)
 
-def compare_cli(model_raw, impl_res):
+def framework_intercepts(case):
+    """urfave/cli answers a positional argument `h` or `help` itself (the help of the command) before the program's action runs; the model's
+    invocation record has no such case (DESIGN 9.4, trusted base: argv parsing). Only a clean exit is required there."""
+    a = case.get("arg")
+    if a is None: return False
+    if isinstance(a, str): a = a.encode()
+    return a in (b"h", b"help")
+
+def compare_cli(model_raw, impl_res, case=None):
     """None when the observables agree, else a description. Unmodelled cases only require a clean exit."""
     mst, mout = parse_model_outcome(model_raw)
+    if case is not None and framework_intercepts(case): mst = "fail:unmodelled"
     ist, iout = impl_res["status"], impl_res["stdout"]
     if ist.startswith("crash") or ist == "timeout":
         return f"implementation {ist}: {impl_res.get('raw_err','')[:300]}{impl_res.get('panic','')[:600]}"
@@ -363,3 +379,27 @@ def compare_cli(model_raw, impl_res):
     if mout != iout:
         return f"stdout differs: model {mout[:400]!r} / implementation {iout[:400]!r}"
     return None
+
+
+def run_inproc_single(impl, case, env_extra=None, timeout=120):
+    """one case in a harness process of its own (a crash of the Go runtime - stack overflow, out of memory - kills the process: no reply line).
+    Returns dict(status, stdout, raw_err, rc)."""
+    work = tempfile.mkdtemp(prefix="hv-one.", dir="/var/tmp")
+    try:
+        d = os.path.join(work, "c0"); os.makedirs(d)
+        materialize(case, d)
+        argv, env = argv_env(case)
+        line = json.dumps({"args": argv, "env": env, "cwd": d, "sink": -1, "faults": {}})
+        e = dict(PATH="/usr/bin:/bin", HOME=work, HR_VERIF_SERVE="1", TZ="UTC"); e.update(env_extra or {})
+        try:
+            p = subprocess.run([impl["hr_verif"]], input=(line + "\n").encode(), stdout=subprocess.PIPE, stderr=subprocess.PIPE, env=e, timeout=timeout)
+        except subprocess.TimeoutExpired:
+            return dict(status="timeout", stdout=b"", raw_err="timeout", rc=None)
+        if p.returncode != 0 or not p.stdout.strip():
+            return dict(status="crash:rc=%s" % p.returncode, stdout=b"", raw_err=p.stderr[:600].decode("utf-8", "replace"), rc=p.returncode)
+        j = json.loads(p.stdout.decode().split("\n")[0])
+        err = bytes.fromhex(j.get("err", "")).decode("utf-8", "surrogateescape")
+        status = "crash:panic" if j.get("panic") else ("fail:" + classify_error(err) if err else "ok")
+        return dict(status=status, stdout=bytes.fromhex(j.get("out", "")), raw_err=err, rc=0, panic=j.get("panic", ""))
+    finally:
+        shutil.rmtree(work, ignore_errors=True)
